@@ -30,6 +30,15 @@ Proof.
   cbn [fst]. destruct (rl_err st); discriminate.
 Qed.
 
+Theorem run_proc_no_panic : forall t pre lines, fst (run_proc t pre lines) <> LsPanic.
+Proof.
+  intros t pre lines. unfold run_proc.
+  pose proof (read_lines_no_panic t lines (MkRL pre false false)) as H.
+  destruct (read_lines t (MkRL pre false false) lines) as [|st]; [congruence|].
+  destruct (rl_err st); [cbn; discriminate|].
+  destruct (add_missing_dirs t (rl_list st)); cbn; discriminate.
+Qed.
+
 (* the scripts compiled into stagemaker (regenerated from package defaults on every run) *)
 Definition line_accepted (raw : bytes) : bool :=
   let t := go_trim raw in
